@@ -201,6 +201,7 @@ def two_site_svd(
     b: NDArray[np.complex128],
     threshold: float,
     max_bond_dim: int | None = None,
+    min_bond_dim: int = 2,
 ) -> tuple[NDArray[np.complex128], NDArray[np.complex128]]:
     """Two site SVD.
 
@@ -211,6 +212,7 @@ def two_site_svd(
         b: The right tensor to be decomposed.
         threshold: SVD threshold
         max_bond_dim: Maximum bond dimension of MPS
+        min_bond_dim: Smallest rank the truncation may choose (when that many singular values exist)
 
     Returns:
         a_new: The U tensor with the left virtual leg and the physical
@@ -233,7 +235,7 @@ def two_site_svd(
     #    sum of squares of discarded values ≤ threshold
     discard = 0.0
     keep = len(s_vec)
-    min_keep = 2  # Prevents pathological dimension-1 truncation
+    min_keep = min(len(s_vec), min_bond_dim)  # Prevents pathological dimension-1 truncation
     for idx, s in enumerate(reversed(s_vec)):
         discard += s**2
         if discard >= threshold:
